@@ -4,7 +4,7 @@ from mc.engine import Family, Res
 from mc.interp import build, count_events
 from mc.ref.schedule import Judge, canonical_state, structure_sig
 from mc.ref.unroll import model_build, model_rows, impl_rows, Sched
-from mc.spaces import FlatSpace, NestedSpace1, NestedSpace2, N1_BODIES, N1_BODIES_EXTRA
+from mc.spaces import FlatSpace, NestedSpace1, NestedSpace2, SparseSpace, N1_BODIES, N1_BODIES_EXTRA
 
 
 class SchedFamily(Family):
@@ -109,7 +109,11 @@ def families_for(want, tier):
         fams.append(SchedFamily(NestedSpace2(2), 'G', want, unroll=False))
         fams.append(SchedFamily(FlatSpace(2), 'Z', want, unroll=False))
         fams.append(SchedFamily(NestedSpace1(2), 'Z', want, unroll=True))
+        if 'C01' in want:
+            # deviation-bounded: up to 6 entries, at most 2 explicit relations (deep trees, leaves at different depths)
+            fams.append(SchedFamily(SparseSpace(6, 2, min_len=5, atoms=[('X', 0), ('X', 1), ('P', 0)], last_atoms=[('R', 0), ('P', 0), ('X', 0)]), 'G', want, unroll=False))
     else:
+        fams.append(SchedFamily(SparseSpace(6, 2, min_len=4), 'G', want, unroll=False))
         fams.append(SchedFamily(FlatSpace(3), 'Z', want, unroll=False))
         fams.append(SchedFamily(NestedSpace1(3), 'Z', want, unroll=True))
         # F(4) has 1.4e7 programs: C01 runs it under two configurations, C02/C04 under the generic one
